@@ -291,8 +291,10 @@ func Lock(try func() bool, lock func(), site string) {
 			}
 			return
 		}
-		if cs := closedSim.Load(); cs != nil && cs.wasMember() {
-			// after the simulation ended: never wait for a real mutex
+		if cs := closedSim.Load(); cs != nil && (cs.wasMember() || cs.isStranger()) {
+			// after the simulation ended: never wait for a real mutex (a goroutine that was
+			// ended while parked inside a critical section may have left it locked); this
+			// includes goroutines that were spawned only after the end
 			if !try() {
 				runtime.Goexit()
 			}
@@ -326,6 +328,21 @@ func (s *Sim) wasMember() bool {
 	s.mu.Unlock()
 	raceEnable()
 	return r
+}
+
+// isStranger reports whether the calling goroutine was never registered with this
+// (closed) simulation: a goroutine spawned by a member after the end of the run.
+//
+//go:norace
+func (s *Sim) isStranger() bool {
+	raceDisable()
+	id := goid()
+	s.mu.Lock()
+	g := s.lookup(id)
+	closed := s.closed
+	s.mu.Unlock()
+	raceEnable()
+	return g == nil && closed
 }
 
 // DriverWouldBlock is the panic value raised when the driver goroutine would have to wait
